@@ -147,6 +147,18 @@ V2Commitment(s, miner, txns, v2txns) ==
 \* b is a block under line V2Block (V2 = <<>> for a v1 block); a v2 block carries its commitment
 PreBlockID(b) == b.ParentID \o LE64(b.Nonce) \o LE64(b.Timestamp) \o (IF b.V2 = <<>> THEN V1Commitment(b) ELSE b.V2[1].Commitment)
 
+\* ---- "exactly": what no identifier binds has no effect ------------------------------------------
+\* Two blocks in memory with the same layout are ONE block to every other node (they differ only in members the lines
+\* mark NT: the payout restated by a v1 revision, ownership flags, sub-second parts of times inside transactions).  By
+\* the pre-images above they have the same identifier, the same transaction identifiers and the same signature hashes.
+\* The converse of "an identifier changes with every effect-bearing member" is then a demand on the state machine: such
+\* blocks get the same verdict and have the same effect (child state, update) - an NT member that reaches the state
+\* would be effect-bearing content outside every identifier.  The harness changes each NT member of accepted blocks
+\* alone (header members excepted: the property keeps them fixed) and compares identifier, verdict and effect.
+SameBlock(b1, b2) == Lay("V2Block", b1) = Lay("V2Block", b2)
+\* "any LATER change": the identifier is that of the content the block has when it is asked for, also when the block was
+\* identified, validated or encoded before and changed in place since (SemanticsCurrent).
+
 \* ---- addresses and element hashes (entry points of SemanticsPure: every hash function shares the pools) ---------
 \* the address of unlock conditions: Merkle root over the timelock, each key, the number of signatures required
 UnlockHash(uc) == Root(<<Leaf(LE64(uc.Timelock))>> \o [i \in 1..Len(uc.PublicKeys) |-> Leaf(Lay("UnlockKey", uc.PublicKeys[i]))] \o
